@@ -5,6 +5,11 @@ pub mod gen;
 pub mod corpus;
 pub mod c01;
 pub mod c02;
+pub mod c03;
+pub mod c04;
+pub mod c05;
+pub mod c07;
+pub mod c17;
 pub mod c06;
 
 use frame::{Ctx, Report};
@@ -29,7 +34,12 @@ pub fn lookup(id: &str) -> Option<Property> {
     Some(match id {
         "C01" => prop!("C01", c01),
         "C02" => prop!("C02", c02),
+        "C03" => prop!("C03", c03),
+        "C04" => prop!("C04", c04),
+        "C05" => prop!("C05", c05),
         "C06" => prop!("C06", c06),
+        "C07" => prop!("C07", c07),
+        "C17" => prop!("C17", c17),
         _ => return None,
     })
 }
